@@ -142,6 +142,8 @@ type collSource struct {
 	inRepeat bool
 }
 
+func (s *collSource) IsEnded() bool { return s.i > 4000 }
+
 func (s *collSource) DrawBits(n int) uint64 {
 	s.i++
 	if s.i > 4000 {
